@@ -67,7 +67,7 @@ def _read_cells(ctx, ignore):
         'Ign': _Sheet({(1, 1): _ocell('A1', 'n', 1), (1, 2): _ocell('B1', 'f', '=A1+1', 2)}),
         'My Sheet': _Sheet({(1, 1): _ocell('A1', 'b', True), (1, 2): _ocell('B1', 'f', '=A1*2', 4)}),
     }, {})
-    env = {p[0]: Rec(book=book), p[1]: list(ignore)}
+    env = {p[0]: Rec(cls='pkg:reader:Reader', book=book), p[1]: list(ignore)}
     if len(p) > 2:
         env[p[2]] = False
     it = Interp(ctx.a, rm, env, isinstance_fn=_isinst(ctx), inline_pkg=True, scope_fn=rc, self_class='pkg:reader:Reader',
@@ -107,7 +107,7 @@ def _read_names(ctx, ignore):
         'd': Rec(name='d', value='#REF!', hidden=None),
         'e': Rec(name='e', value='Data!$E$1', hidden=True),
     }
-    env = {p[0]: Rec(book=_Book({}, names)), p[1]: list(ignore)}
+    env = {p[0]: Rec(cls='pkg:reader:Reader', book=_Book({}, names)), p[1]: list(ignore)}
     if len(p) > 2:
         env[p[2]] = False
     it = Interp(ctx.a, rm, env, isinstance_fn=_isinst(ctx), inline_pkg=True, scope_fn=rd, self_class='pkg:reader:Reader',
